@@ -4,4 +4,4 @@
 From Coq Require Import Extraction ExtrOcamlBasic.
 From Verif Require Import M2.DateTime M1.Containers M1.Client M1.Server M1.Timed M2.TableEntry M2.ValEntry M2.JsonEntry M3.Admission M3.Registry M3.Conn M3.Reconnect.
 Extraction Language OCaml.
-Extraction "model.ml" c20_entry c12_entry c12_lin_entry m1c_entry m1c_h_entry m1s_entry c08rt_entry c18_entry c18s_entry c03_entry c05v_entry c05e_entry c05vs_entry c05es_entry c05t_entry c04e_entry c04d_entry c04s_entry c06_entry c14_entry c13_entry c15_entry c17_entry.
+Extraction "model.ml" c20_entry c12_entry c12_lin_entry m1c_entry m1c_h_entry m1c_fresh_entry m1s_entry c08rt_entry c18_entry c18s_entry c03_entry c05v_entry c05e_entry c05vs_entry c05es_entry c05t_entry c04e_entry c04d_entry c04s_entry c06_entry c14_entry c13_entry c15_entry c17_entry.
